@@ -336,6 +336,7 @@ consensus_by_sample(const ESL_MSAWEIGHT_CFG *cfg, const ESL_MSA *msa, int **ct, 
   int         i, idx;
   int         status      = eslOK;
 
+  if (nsamp > msa->nseq) nsamp = msa->nseq;                   // esl_rand64_Deal() cannot deal more than <nseq> distinct indices (it would never return)
   ESL_ALLOC(sampidx, sizeof(int64_t) * nsamp);
   esl_mat_ISet(ct, msa->alen+1, msa->abc->Kp, 0);
   if (dat) dat->seed = esl_rand64_GetSeed(rng);
